@@ -126,6 +126,7 @@ func (f *Fetcher) processQueue(ctx context.Context, hashes []cid.Cid) []iface.IP
 			// free process slot
 			f.processDone()
 
+			verifYield("fetcher:before-process")
 			f.muProcess.Lock()
 
 			if entry != nil {
